@@ -271,6 +271,49 @@ func scenarios() []scenario {
 			},
 		}, func() string { return digest(&s) }
 	}})
+	out = append(out, scenario{"CC: 2 x CloneSchemas of one tree; each clone must be complete and share no Schema object with the original", func() ([]func() string, func() string) {
+		s := cachedSchema(`{"properties":{"b":{"items":{"not":{"type":"integer"}},"allOf":[{"required":["z"]},{"anyOf":[{"minimum":1},{"const":2}]}]},"a":{"$ref":"#/$defs/d"}},"$defs":{"d":{"enum":[3,1,2],"if":{"type":"array"},"then":{"prefixItems":[{},{"contains":{}}]}}},"dependentSchemas":{"k":{"propertyNames":{"maxLength":3}}}}`)
+		orig := map[*jsonschema.Schema]bool{}
+		var walk func(x *jsonschema.Schema, f func(*jsonschema.Schema))
+		walk = func(x *jsonschema.Schema, f func(*jsonschema.Schema)) {
+			if x == nil {
+				return
+			}
+			f(x)
+			for _, c := range []*jsonschema.Schema{x.Items, x.Not, x.If, x.Then, x.Else, x.Contains, x.PropertyNames, x.AdditionalProperties} {
+				walk(c, f)
+			}
+			for _, l := range [][]*jsonschema.Schema{x.AllOf, x.AnyOf, x.OneOf, x.PrefixItems} {
+				for _, c := range l {
+					walk(c, f)
+				}
+			}
+			for _, m := range []map[string]*jsonschema.Schema{x.Properties, x.Defs, x.DependentSchemas, x.PatternProperties} {
+				ks := make([]string, 0, len(m))
+				for k := range m {
+					ks = append(ks, k)
+				}
+				sort.Strings(ks)
+				for _, k := range ks {
+					walk(m[k], f)
+				}
+			}
+		}
+		walk(s, func(x *jsonschema.Schema) { orig[x] = true })
+		body := func() string {
+			c := s.CloneSchemas()
+			shared, n := 0, 0
+			walk(c, func(x *jsonschema.Schema) {
+				n++
+				if orig[x] {
+					shared++
+				}
+			})
+			b, _ := json.Marshal(c)
+			return fmt.Sprintf("objects=%d shared_with_original=%d %s", n, shared, b)
+		}
+		return []func() string{body, body}, func() string { return digest(s) }
+	}})
 	out = append(out, scenario{"RR: 2 x Resolve of one root Schema through a Loader, Validate on each result", func() ([]func() string, func() string) {
 		s := *cachedSchema(`{"$id":"http://h/r.json","properties":{"a":{"$ref":"d.json#k"},"b":{"$ref":"d.json"}},"required":["a"]}`)
 		load := func(u *url.URL) (*jsonschema.Schema, error) {
